@@ -416,7 +416,11 @@ def trace_validate(ctx, event_files, cap=40000, chunk=4000, par=8, reset_between
 
 # ----------------------------------------------------------------------------------------------- checks
 def nested_agg_jobs(ctx):
-    return lambda profile: [base_job(ctx, "agg", "%s_nested_%s" % (profile, e), profile, nested_e=e, event_every=100, event_cap=500) for e in ["i64", "f64", "dec", "num"]]
+    return lambda profile: ([base_job(ctx, "agg", "%s_nested_%s" % (profile, e), profile, nested_e=e, event_every=100, event_cap=500) for e in ["i64", "f64", "dec", "num"]]
+                            + deep_shape_jobs(ctx)(profile))
+
+def deep_shape_jobs(ctx):
+    return lambda profile: [base_job(ctx, "loops", "%s_shapes_%s" % (profile, e), profile, e=e, shapes=True, event_every=1, event_cap=2000) for e in EVALS]
 
 def c01(ctx):
     q = ctx.quick()
@@ -575,6 +579,7 @@ def c02(ctx):
                 continue
             for sh in range(2):
                 js.append(base_job(ctx, "loops", "%s_loops_%s_%d" % (profile, e, sh), profile, e=e, shard=sh, nshards=2, event_every=7, event_cap=4000))
+        js += deep_shape_jobs(ctx)(profile)
         return js
     f, s = run_jobs(ctx, jobs)
     sv = [(k, r["violated"], r["log"]) for k, r in list(models.items()) + [("Loops", lr)] if r["violated"]]
